@@ -147,7 +147,7 @@ JUDGES = {"cmd": judge_cmd, "conflict": judge_conflict, "same": judge_same_outpu
 
 def shards(tier, seed):
     T = tier == "thorough"
-    return [{"name": "cmds-%d" % i, "count": 1200 if T else 140} for i in range(16)] + [{"name": "big-inputs", "sizes": [(1 << 24) + 4096, 1 << 26] if T else [(1 << 24) + 4096]}]
+    return [{"name": "cmds-%d" % i, "count": 3500 if T else 140} for i in range(16)] + [{"name": "big-inputs", "sizes": [(1 << 24) + 4096, 1 << 26] if T else [(1 << 24) + 4096]}]
 
 
 def _steps_for(rng, cmd, acc, xm):
